@@ -95,6 +95,43 @@ fn subst(t: &T) -> T {
 }
 
 /// Binder-collision kinds: inner binders named like the captured names.
+/// Round 10: expression statements AFTER another statement (parent x child only, not in the depth-3 spines).
+fn later_statement_kinds() -> Vec<Kind> {
+    vec![
+        // round 10: expression statements AFTER another statement. A line that starts with `-` (a
+        // negation, or a captured negative number inlined for its name) continues the statement
+        // before it, so the emitter has to protect it; do-blocks with a single statement never show it
+        Kind {
+            name: "do-stmt-then-expr-stmt",
+            slots: vec![SlotKind::Expr, SlotKind::Expr],
+            is_expr: true,
+            class: "collision",
+            build: |mut v| T::Do(vec![T::Assign("w".into(), Box::new(v.remove(0))), v.remove(0)], Box::new(T::id("w"))),
+        },
+        Kind {
+            name: "do-stmt-then-neg-stmt",
+            slots: vec![SlotKind::Expr, SlotKind::Expr],
+            is_expr: true,
+            class: "collision",
+            build: |mut v| T::Do(vec![T::Assign("w".into(), Box::new(v.remove(0))), T::Neg(Box::new(v.remove(0)))], Box::new(T::List(vec![T::id("w")]))),
+        },
+        Kind {
+            name: "do-stmt-then-captured-stmts",
+            slots: vec![SlotKind::Expr],
+            is_expr: true,
+            class: "collision",
+            build: |mut v| T::Do(vec![T::Assign("w".into(), Box::new(v.remove(0))), T::id("c"), T::id("d"), T::Neg(Box::new(T::id("c")))], Box::new(T::id("w"))),
+        },
+        Kind {
+            name: "do-expr-stmt-then-captured-stmt",
+            slots: vec![SlotKind::Expr],
+            is_expr: true,
+            class: "collision",
+            build: |mut v| T::Do(vec![T::Assign("w".into(), Box::new(T::id("x"))), v.remove(0), T::id("c")], Box::new(T::List(vec![T::id("w"), T::id("d")]))),
+        },
+    ]
+}
+
 fn collision_kinds() -> Vec<Kind> {
     vec![
         Kind { name: "lam-param-c", slots: vec![SlotKind::Expr], is_expr: true, class: "collision", build: |mut v| T::Lam(vec![LArg::Req("c".into())], Box::new(v.remove(0))) },
@@ -506,6 +543,7 @@ pub fn run(ctx: &Ctx, replay: Option<&J>) -> i32 {
     let mut stats = GenStats::default();
     let mut kinds = all_kinds();
     kinds.extend(collision_kinds());
+    kinds.extend(later_statement_kinds());
     let reps: Vec<Kind> = {
         let mut r = representative_kinds();
         r.extend(collision_kinds());
